@@ -233,6 +233,23 @@ PROPS["C38"] = {
     "not_covered": ["GC callbacks on_gc_start/release/end (need &'static MMTK): they only feed statistics, whose every value is covered by the symbolic stats"],
 }
 
+def scan_c36_sweep_shape(repo):
+    """LargeObjectSpace::sweep_large_pages is assumed (not verified) by unit `los` to have the treadmill effect of the collect_*
+    call it makes: check mechanically that its text still is `if sweep_nursery { for object in ..collect_nursery() { sweep(object) } }
+    else { for object in ..collect_mature() { sweep(object) } }` with `sweep` releasing the object's pages."""
+    import re, os
+    src = open(os.path.join(repo, "src/policy/largeobjectspace.rs")).read()
+    m = re.search(r"fn sweep_large_pages\(&mut self, sweep_nursery: bool\) \{(.*?)\n    \}\n", src, re.S)
+    if not m:
+        return False, "sweep_large_pages not found"
+    body = re.sub(r"\s+", " ", re.sub(r"//[^\n]*", "", m.group(1)))
+    shape = re.search(r"if sweep_nursery \{ for object in self\.treadmill\.collect_nursery\(\) \{ sweep\(object\);? \} \} else \{ "
+                      r"for object in self\.treadmill\.collect_mature\(\) \{ sweep\(object\);? \} \}", body)
+    releases = re.search(r"let sweep = \|object: ObjectReference\| \{.*self\.pr \.release_pages\(get_super_page\(object\.to_object_start::<VM>\(\)\)\);", body)
+    ok = bool(shape and releases)
+    return ok, "sweep_large_pages has the assumed shape (sweeps exactly what collect_nursery()/collect_mature() returns, releasing each object's pages): %s" % ok
+
+
 PROPS["C36"] = {
     "level": "proof",
     "engine": "verus",
@@ -243,6 +260,7 @@ PROPS["C36"] = {
                 ("initialize_object_metadata", "src/policy/largeobjectspace.rs"), ("trace_object", "src/policy/largeobjectspace.rs"),
                 ("test_and_mark", "src/policy/largeobjectspace.rs"), ("sweep_large_pages", "src/policy/largeobjectspace.rs")],
     "verus": ["treadmill", "los"],
+    "scans": [scan_c36_sweep_shape],
     "functions": ["TreadMill::{add_to_treadmill, collect_nursery, collect_mature, copy, flip, is_to_space_empty, is_from_space_empty, "
                   "is_alloc_nursery_empty, is_collect_nursery_empty} (bodies extracted verbatim, re-homed on TreadMillSync)",
                   "LargeObjectSpace::{initialize_object_metadata, prepare, release, trace_object, test_and_mark, test_mark_bit, is_in_nursery, is_marked} "
@@ -266,7 +284,7 @@ PROPS["C36"] = {
     "assumptions": ["the Mutex acquisition is dropped by extraction: mutual exclusion of the operations is assumed, not verified",
                     "objects passed to initialize_object_metadata / add_to_treadmill are fresh (not already in the treadmill)",
                     "sequential semantics: &self methods mutating through atomics are rendered as &mut self; overlapping trace_object calls on the same object rely on C18",
-                    "LargeObjectSpace::sweep_large_pages is NOT verified (for-loop over a HashSet by value, page release): assumed to have the treadmill effect of the collect_* call it makes",
+                    "LargeObjectSpace::sweep_large_pages is NOT verified (for-loop over a HashSet by value, page release): assumed to have the treadmill effect of the collect_* call it makes; a mechanical source scan (scan_c36_sweep_shape) checks on every run that its text still has that shape, otherwise the run is undecided",
                     "termination of test_and_mark's retry loop is not verified"],
     "trusted_base": ["vstd specifications of std::collections::HashSet and core::mem::swap", "assume_specification of core::mem::take; axiom HashSet::default() is empty",
                      "axiom: ObjectReference obeys the hash key model; ObjectReference modelled as an opaque key",
@@ -572,9 +590,9 @@ PROPS["C40"] = {
                    "length with key function x & m for a symbolic mask m (so every partition shape of <= 5 (7) items into runs occurs). Checked: the items yielded by the groups, in order, are exactly the input; each item's key equals "
                    "its group's reported key; each group is non-empty; reported len == number of items the group yields; adjacent groups have different "
                    "keys; empty input yields no group. The same obligations are checked with an underlying iterator whose size_hint is INEXACT "
-                   "(slice.iter().copied().filter(..), symbolic filter mask; input length <= 3 quick / 5 thorough), through a generic driver hook. Generic `Iterator + Clone` code with FnMut closures is outside what Verus accepts for extraction, so the "
+                   "(slice.iter().copied().filter(..), symbolic filter mask; input length <= 3 in both tiers -- 5 items do not finish within 25 minutes), through a generic driver hook. Generic `Iterator + Clone` code with FnMut closures is outside what Verus accepts for extraction, so the "
                    "length bound remains and the level is 'other'.",
-    "bounds": ["input length <= 5 in the quick tier and <= 7 in the thorough tier (loops unwound to length + 3, unwinding assertions on); filtered-iterator harness: <= 3 / <= 5", "item type u8, key type u8 (the code is parametric in both)"],
+    "bounds": ["input length <= 5 in the quick tier and <= 7 in the thorough tier (loops unwound to length + 3, unwinding assertions on); filtered-iterator harness: <= 3", "item type u8, key type u8 (the code is parametric in both)"],
     "assumptions": ["key functions are pure (the harness' key is x & m)"],
     "trusted_base": ["core::slice::Iter / core::iter::Filter / Copied as compiled by Kani"],
     "not_covered": ["inputs longer than 7 items (5 in the quick tier)", "impure key functions", "the Flatten-based instantiation used by the mmapper (a harness exists but CBMC does not finish it within 15 minutes even for 3 items; it is kept as an experiment and is not part of the check)"],
